@@ -24,6 +24,8 @@ cp $PATCH /verif/seeded/$NAME/patch.diff; cp $WT/$demo /verif/seeded/$NAME/$(bas
 echo "== check against /repo with change applied"
 git -C /repo apply --check $PATCH || { echo "PATCH DOES NOT APPLY TO /repo"; exit 2; }
 git -C /repo apply $PATCH
+cp /verif/evidence/$PROP.json /tmp/sc.evidence.json 2>/dev/null   # evidence must describe the unchanged tree: put it back afterwards
 (cd /verif && ./run $PROP $TIER > /tmp/sc.check.txt 2>&1; echo "check exit=$?" >> /tmp/sc.check.txt)
 git -C /repo checkout -- .
+cp /tmp/sc.evidence.json /verif/evidence/$PROP.json 2>/dev/null
 grep -E "VIOLATION|exit=" /tmp/sc.check.txt | cut -c1-300 | head -8
